@@ -233,6 +233,105 @@ func c10Census(c *core.Ctx) (sources []unorderedSource, unorderedFns map[*ssa.Fu
 	return
 }
 
+func sortedCollectorOK(c *core.Ctx, s unorderedSource) bool {
+	ok, _ := sortedCollector(c, s)
+	return ok
+}
+
+// sortedCollector: the map range of s only collects (its loop calls nothing but append/len and writes nothing but
+// locals), and the function sorts the collected slice with a strict `<` before the loop that visits it, or before
+// returning it.
+func sortedCollector(c *core.Ctx, s unorderedSource) (bool, string) {
+	rng, ok := s.in.(*ssa.Range)
+	if !ok {
+		return false, "not a map range"
+	}
+	// the loop driven by this range: the innermost loop holding its Next
+	var loop *core.Loop
+	for _, rf := range *rng.Referrers() {
+		if nx, isNext := rf.(*ssa.Next); isNext {
+			loop = core.InnermostLoop(s.fn, nx.Block())
+		}
+	}
+	if loop == nil {
+		return false, "range loop not found"
+	}
+	for b := range loop.Blocks {
+		for _, in := range b.Instrs {
+			switch x := in.(type) {
+			case ssa.CallInstruction:
+				bi, isB := x.Common().Value.(*ssa.Builtin)
+				if _, isCall := in.(*ssa.Call); !isCall || !isB || (bi.Name() != "append" && bi.Name() != "len") {
+					return false, "the map range does more than collect (" + c.Pos(in.Pos()) + ")"
+				}
+			case *ssa.Store:
+				if _, local := x.Addr.(*ssa.Alloc); !local {
+					if _, isIdx := x.Addr.(*ssa.IndexAddr); !isIdx {
+						return false, "the map range writes non-local memory (" + c.Pos(in.Pos()) + ")"
+					}
+				}
+			case *ssa.MapUpdate, *ssa.Send:
+				return false, "the map range writes shared state (" + c.Pos(in.Pos()) + ")"
+			}
+		}
+	}
+	sort2 := c.Func("util/sort2", "Slice")
+	strict := func(call *ssa.Call) bool {
+		cmp := core.ClosureOf(call.Common().Args[1])
+		if cmp == nil || len(cmp.Blocks) != 1 {
+			return false
+		}
+		ret, isRet := cmp.Blocks[0].Instrs[len(cmp.Blocks[0].Instrs)-1].(*ssa.Return)
+		if !isRet {
+			return false
+		}
+		b, isB := ret.Results[0].(*ssa.BinOp)
+		return isB && b.Op == token.LSS && b.X == ssa.Value(cmp.Params[0]) && b.Y == ssa.Value(cmp.Params[1])
+	}
+	why := "no sort2.Slice with a strict `<` comparator sorts what the map range collected"
+	// (a) visited in place: the loop with the dynamic (callback) call ranges over a slice sorted before it
+	for _, rl := range core.RangeLoops(s.fn) {
+		hasDyn := false
+		for b := range rl.Loop.Blocks {
+			for _, in := range b.Instrs {
+				if ci, isCall := in.(ssa.CallInstruction); isCall && ci.Common().StaticCallee() == nil && !ci.Common().IsInvoke() {
+					if _, isB := ci.Common().Value.(*ssa.Builtin); !isB {
+						hasDyn = true
+					}
+				}
+			}
+		}
+		if hasDyn {
+			ok, w := sortedBeforeLoop(c, s.fn, rl)
+			if ok {
+				return true, ""
+			}
+			why = w
+		}
+	}
+	// (b) handed back: every return yields a slice that a strict sort of the same value dominates
+	rets := core.Returns(s.fn)
+	if len(rets) == 0 || s.fn.Signature.Results().Len() != 1 {
+		return false, why
+	}
+	for _, ret := range rets {
+		okRet := false
+		for _, ci := range core.Calls(s.fn) {
+			call, isCall := ci.(*ssa.Call)
+			if !isCall || !core.IsCallTo(call.Common(), sort2) || !strict(call) {
+				continue
+			}
+			if core.Norm(call.Common().Args[0]) == core.Norm(ret.Results[0]) && core.Dominates(call, ret) && !loop.Blocks[call.Block()] {
+				okRet = true
+			}
+		}
+		if !okRet {
+			return false, why
+		}
+	}
+	return true, ""
+}
+
 // onlyLenUses: v is used only as the argument of len.
 func onlyLenUses(v ssa.Value) bool {
 	if v.Referrers() == nil {
@@ -367,26 +466,10 @@ func c10(c *core.Ctx, r *core.Report) {
 				}
 			}
 			r.Check(okF, "C10.R1", cons, pos, "SETLIKE: the map is only fanned out, one goroutine per entry, all awaited (WaitGroup protocol)")
-		case s.key == "maprange@(component_definition.TagArg).ForEach":
-			// SORTED: keys are collected, sorted, then visited
-			okSorted, why := false, "callback loop not found"
-			for _, rl := range core.RangeLoops(s.fn) {
-				hasDyn := false
-				for b := range rl.Loop.Blocks {
-					for _, in := range b.Instrs {
-						if ci, isCall := in.(ssa.CallInstruction); isCall && ci.Common().StaticCallee() == nil && !ci.Common().IsInvoke() {
-							if _, isB := ci.Common().Value.(*ssa.Builtin); !isB {
-								hasDyn = true
-							}
-						}
-					}
-				}
-				if hasDyn {
-					okSorted, why = sortedBeforeLoop(c, s.fn, rl)
-				}
-			}
-			// the map range itself only collects keys
-			r.Check(okSorted, "C10.R1", cons, pos, "SORTED: keys are collected, sorted with a strict `<` and only then visited "+why)
+		case s.key == "maprange@(component_definition.TagArg).ForEach" || (s.kind == "maprange" && sortedCollectorOK(c, s)):
+			// SORTED: keys are collected, sorted, then visited (in place, or by the caller of a key-collecting helper)
+			okSorted, why := sortedCollector(c, s)
+			r.Check(okSorted, "C10.R1", cons, pos, "SORTED: the map range only collects keys, which are sorted with a strict `<` before they are visited or handed back "+why)
 		case s.kind != "use" && !reach[s.fn] && !reach[core.TopLevel(s.fn)]:
 			r.Hold("C10.R1", cons, pos, "UNUSED: not reachable from App.Run / App.Close on the CHA call graph")
 		case s.kind == "syncrange" && ufns[core.TopLevel(s.fn)]:
